@@ -234,11 +234,17 @@ fn check_c02(cases: &[Case], results: &[Option<RunResult>]) -> Vec<Violation> {
                 let w = str_width(l);
                 if w > c.spec.width {
                     let dom = dom_of(r);
-                    let known = if l.contains("]: ") || (c.spec.cfg.footnotes != 2 && has_element(&dom, &["a"]) && l.chars().any(|ch| cw(ch) == 2) && !l.contains('│')) && c.spec.width < 2 {
-                        Some("footnote_wide_char")
-                    } else {
-                        None
-                    };
+                    let mut wide_href = false;
+                    walk(&dom, &mut |n, _| {
+                        if n.is("a") {
+                            if let Some(h) = n.attr("href") {
+                                if h.chars().any(|ch| cw(ch) > c.spec.width) {
+                                    wide_href = true;
+                                }
+                            }
+                        }
+                    });
+                    let known = if wide_href && l.chars().any(|ch| cw(ch) > c.spec.width) { Some("footnote_wide_char") } else { None };
                     v.push(viol(i, "line wider than the width", format!("width {} line {:?} ({} columns)", c.spec.width, l, w), known));
                     break;
                 }
